@@ -448,6 +448,28 @@ fn congress_history(rng: &mut Rng, thorough: bool, rep: &Report) -> bool {
                 plan.push((g, v));
             }
         }
+        // boundary shaping: every fourth interval or so lands exactly on the target, or one off it
+        if rng.below(4) == 0 {
+            let desired = (target as i64 + *rng.pick(&[0i64, 0, 0, 1, -1])).max(1) as u64;
+            let mut total: u64 = plan.iter().map(|p| p.1).sum();
+            while total > desired {
+                let k = (0..plan.len()).max_by_key(|k| plan[*k].1).unwrap();
+                let cut = (total - desired).min(plan[k].1);
+                plan[k].1 -= cut;
+                total -= cut;
+                if plan[k].1 == 0 {
+                    plan.swap_remove(k);
+                }
+            }
+            if total < desired && desired - total <= 20_000 {
+                if plan.is_empty() {
+                    plan.push((rng.usize_below(ngroups), 0));
+                }
+                let k = rng.usize_below(plan.len());
+                plan[k].1 += desired - total;
+            }
+            rep.count("congress_intervals_shaped_to_target_boundary", 1);
+        }
         let total: u64 = plan.iter().map(|p| p.1).sum();
         let mut new_groups_ok = true;
         // feed, round-robin so groups interleave
